@@ -134,7 +134,14 @@ def fd_scenario(chk, label, kind, outcomes, explicit):
         k = lsl.Var(1, lsl.Dist(tfd.Bernoulli, probs=probs), name="k")
     s = lsl.Var(1.2, name="s")
     loc = lsl.Var(lsl.Calc(lambda kk: 0.5 * kk, k), name="loc")
-    y = lsl.obs(jnp.array([0.5, 1.5]), lsl.Dist(tfd.Normal, loc=loc, scale=s), name="y")
+    if kind.endswith("shared"):
+        # the node downstream of the discrete variable feeds the response twice (location directly, scale through a second node): a by-name
+        # update inside the kernel has to refresh it before both of its dependants
+        loc2 = lsl.Var(lsl.Calc(lambda l: l + 0.125, loc), name="loc2")
+        sc2 = lsl.Var(lsl.Calc(lambda l, s_: s_ + 0.25 * l * l, loc, s), name="sc2")
+        y = lsl.obs(jnp.array([0.5, 1.5]), lsl.Dist(tfd.Normal, loc=loc2, scale=sc2), name="y")
+    else:
+        y = lsl.obs(jnp.array([0.5, 1.5]), lsl.Dist(tfd.Normal, loc=loc, scale=s), name="y")
     model = lsl.GraphBuilder().add(y).build_model()
     kern = finite_discrete_gibbs_kernel("k", model, outcomes=list(outcomes) if explicit else None)
     iface = gs.LieselInterface(model)
@@ -259,7 +266,8 @@ def main():
     fds = [("FiniteDiscrete{0,1,2} from prior", "FiniteDiscrete", (0.0, 1.0, 2.0), False), ("Bernoulli from prior", "Bernoulli", (0, 1), False),
            ("Bernoulli outcomes=[1,0]", "Bernoulli", (1, 0), True), ("FiniteDiscrete outcomes=[2,0,1]", "FiniteDiscrete", (2.0, 0.0, 1.0), True),
            ("FiniteDiscrete{0,.5,1,1.5}, variable initialised with an integer", "FiniteDiscrete/int-initialised", (0.0, 0.5, 1.0, 1.5), False),
-           ("FiniteDiscrete{0,1,2} whose second outcome has prior probability exactly zero (extended reals)", "FiniteDiscrete/zero-prob", (0.0, 1.0, 2.0), False)]
+           ("FiniteDiscrete{0,1,2} whose second outcome has prior probability exactly zero (extended reals)", "FiniteDiscrete/zero-prob", (0.0, 1.0, 2.0), False),
+           ("FiniteDiscrete{0,1,2}, a downstream node feeding location and scale of the response", "FiniteDiscrete/shared", (0.0, 1.0, 2.0), False)]
     if chk.tier == "quick":
         fds = fds[:3] + fds[4:]
     for label, kind, outcomes, explicit in fds:
